@@ -280,11 +280,11 @@ pub fn enumerate(ctx: &Ctx, parts: &str, f: &mut dyn FnMut(&EncCase)) {
     }
     // (h) signal-family grid on real block sizes
     if has('h') {
-        let blocks: &[u16] = if q { &[16, 192, 4096] } else { &[16, 192, 4096, 65535] };
+        let blocks: &[u16] = if q { &[16, 192, 576, 4096] } else { &[16, 192, 576, 1152, 4096, 65535] };
         for &bs in blocks {
             let b = bs as usize;
             let mut lens = vec![b - 1, b, b + 1, 2 * b + 1];
-            if !q || bs <= 192 {
+            if !q || bs <= 576 {
                 lens.push(2 * b - 1);
                 for o in [1usize, 2, 7, 8, 9, 16, 24, 33, 64] {
                     lens.push(b + o);
@@ -301,7 +301,8 @@ pub fn enumerate(ctx: &Ctx, parts: &str, f: &mut dyn FnMut(&EncCase)) {
                         for &len in &lens {
                             for ch in [1u8, 2] {
                                 for (oi, opt) in [Opt { block: bs, ..base }, Opt { block: bs, lpc: Some(32), part: 15, ..base }, Opt { block: bs, lpc: None, part: 0, fast: true, ..base }].into_iter().enumerate() {
-                                    if q && oi > 0 && bs > 192 {
+                                    // (the high-order LPC option set needs blocks of a few hundred samples to be chosen at all)
+                                    if q && oi > 0 && bs > 576 {
                                         continue;
                                     }
                                     if ctx.mine() {
